@@ -6,7 +6,7 @@
 From Gokrb5.lib Require Import Bytes JV.
 From Gokrb5.model Require Import Crypto.
 From Gokrb5.prim Require CBC RC4 HMAC.
-From Gokrb5.proofs Require Import CryptoBasic CryptoRoundTrip.
+From Gokrb5.proofs Require Import CryptoBasic CryptoRoundTrip CryptoLengths.
 
 Theorem C06_decrypt_short_is_error : forall et key usage ct,
   (length ct < conf_len et + mac_len et)%nat -> exists e, decrypt et key usage ct = Err e.
@@ -38,3 +38,9 @@ Theorem C06_decrypt_accepts_only_valid_mac : forall et key usage ct m,
   end.
 Proof. exact decrypt_accepts_only_valid_mac. Qed.
 Print Assumptions C06_decrypt_accepts_only_valid_mac.
+
+(* usage and key-kind separation starts at the derivation constant: injective over the whole 32-bit usage range *)
+Theorem C06_usage_const_injective : forall u1 o1 u2 o2,
+  0 <= u1 < 2 ^ 32 -> 0 <= u2 < 2 ^ 32 -> usage_const u1 o1 = usage_const u2 o2 -> u1 = u2 /\ o1 = o2.
+Proof. exact usage_const_injective. Qed.
+Print Assumptions C06_usage_const_injective.
